@@ -1,52 +1,19 @@
 import InTotoModel.Driver.JsonProto
 import InTotoModel.Model.Codec
+import InTotoModel.Model.KeyJson
 /-
-  `doc_dec <kind> <JV> K <n> {<JV entry> (N | A2 S<id> <JV rewritten>)}*`
+  `doc_dec <kind> <JV>`
   kind ∈ link step insp layout block sig.  The model decodes the document and writes it again;
-  answer `ok <JV, objects sorted>` or `reject`.  The table is the behaviour of the public-key
-  (de)serialiser on the key descriptions that occur in the document (observed from the real library by
-  the harness); `expires` is read and written by the model of chrono's RFC 3339 reader / writer
-  (Model/Time.lean).
+  answer `ok <JV, objects sorted>` or `reject`.  Nothing is handed over from the implementation: key
+  descriptions are read and written by `Model/KeyJson.lean` (with `Model/Pem.lean`, the DER reader and
+  the model's own SHA-256 for the ids), `expires` by the model of chrono's RFC 3339 reader / writer
+  (`Model/Time.lean`).
 
   `rfc3339 <hex text>`       → `none` | `ok <secs> <nanos>`       (chrono `parse_from_rfc3339` → UTC)
   `fmttime <secs> <nanos>`   → `<hex text>`                       (`to_rfc3339_opts(Secs, true)`)
 -/
 namespace InToto.Proto
 open InToto InToto.Wire
-
-structure DKey where
-  id : Str
-  json : JV
-
-def readTable (tag : String) (toks : List String) : Option (List (JV × JV) × List String) :=
-  match toks with
-  | t :: n :: rest =>
-    if t != tag then none else
-    match n.toNat? with
-    | none => none
-    | some n =>
-      let rec go (k : Nat) (toks : List String) (acc : List (JV × JV)) : Option (List (JV × JV) × List String) :=
-        match k with
-        | 0 => some (acc.reverse, toks)
-        | k + 1 =>
-          match readJV toks with
-          | some (a, r1) =>
-            match readJV r1 with
-            | some (b, r2) => go k r2 ((a, b) :: acc)
-            | none => none
-          | none => none
-      go n rest []
-  | _ => none
-
-def mkEnv (keys : List (JV × JV)) : DocEnv DKey :=
-  { keyToJson := fun k => k.json
-    keyOfJson := fun v =>
-      match keys.find? (fun e => showJV e.1 == showJV v) with
-      | some (_, .arr [.str id, j]) => some { id := id, json := j }
-      | _ => none
-    kidOf := fun k => k.id
-    fmtTime := Time.fmtTimeKey
-    parseTime := Time.parseTimeKey }
 
 def docDec (toks : List String) : String :=
   match toks with
@@ -55,9 +22,9 @@ def docDec (toks : List String) : String :=
     | some (v, r1) =>
       match some ((), r1) with
       | some (_, r2) =>
-        match readTable "K" r2 with
-        | some (keys, []) =>
-          let E := mkEnv keys
+        match r2 with
+        | [] =>
+          let E := KeyJson.stdKeyEnv
           let out : Option (Option JV) :=
             if kind == "link" then some ((linkOfJson v).map linkToJson)
             else if kind == "step" then some ((stepOfJson v).map stepToJson)
@@ -75,6 +42,15 @@ def docDec (toks : List String) : String :=
       | none => "bad-op"
     | none => "bad-op"
   | [] => "bad-op"
+
+/-- `key_dec <JV>`: a key description read and written again: `ok <key id> <JV>` or `reject` -/
+def keyDec (toks : List String) : String :=
+  match readJV toks with
+  | some (v, []) =>
+    match KeyJson.keyOfJson v with
+    | some d => "ok " ++ String.ofList (KeyJson.kidOf d) ++ " " ++ showJV (Json.norm (KeyJson.keyToJson d))
+    | none => "reject"
+  | _ => "bad-op"
 
 def runRfc3339 (h : String) : String :=
   match strOfHex h with
